@@ -469,4 +469,4 @@ def plan(tier):
     return [Enum("short-histories", lambda: enum_short("quick"), shards=16),
             Hyp("histories", lambda: _history(60), examples=2000, shards=16)]
   return [Enum("short-histories", lambda: enum_short("thorough"), shards=16),
-          Hyp("histories", lambda: _history(200), examples=12000, shards=16)]
+          Hyp("histories", lambda: _history(200), examples=40000, shards=16)]
